@@ -76,6 +76,9 @@ def _ctor_info(repo: Repo, ci: ClassInfo):
 DECLARED_KINDS = {("IntervalSingleBoundaryPoint", "side"): ("shape", "Interval.boundary_left/right pass self.lower_bound / self.upper_bound")}
 
 
+_DUNDER = {ast.Sub: "__sub__", ast.Add: "__add__", ast.BitAnd: "__and__", ast.Mult: "__mul__"}
+
+
 def r1_roundtrip(repo: Repo, rep, rule_id="R-C17-1"):
     R = rep.rule(rule_id, "__call__ re-creates the domain passing EVERY constructor argument from its evaluated counterpart "
                  "(shape function -> partially_evaluate(**data), sub-domain -> sub(**data), plain value / flag -> self.<attr>)", floor=14,
@@ -111,6 +114,17 @@ def r1_roundtrip(repo: Repo, rep, rule_id="R-C17-1"):
             if ci.name == "BoundaryDomain":
                 rep.check(R, dump(r) == "self.domain(**data).boundary", fi.site(p.ret_node), fi.fq, "boundary of the evaluated domain", dump(r), dump(r))
                 continue
+            if isinstance(r, ast.BinOp) and type(r.op) in _DUNDER:
+                # a domain operator: resolved through Domain.__sub__ / __add__ / __and__ / __mul__ to the constructor call it makes
+                dn = D.methods.get(_DUNDER[type(r.op)])
+                made = None
+                if dn is not None and len(dn.params) == 2:
+                    for q in paths(dn.node):
+                        if q.ret is not RAISE and isinstance(q.ret, ast.Call) and isinstance(q.ret.func, ast.Name):
+                            from ..flow import subst
+                            made = subst(q.ret, {dn.params[0]: r.left, dn.params[1]: r.right})
+                if made is not None:
+                    r = made
             if not (isinstance(r, ast.Call) and attr_chain(r.func) in (ci.name, "type(self)", "self.__class__")):
                 rep.undecided(R, fi.site(p.ret_node), fi.fq, f"returns {ci.name}(...)", dump(r)[:80])
                 continue
